@@ -129,6 +129,8 @@ UpdateEff(old, new) ==
        /\ byDenom' = [d \in ((DOMAIN byDenom) \ SeqToSet(p.denoms)) \cup keep |-> IF d \in keep THEN Id(q) ELSE byDenom[d]]
        /\ UNCHANGED <<enabled, meta, cbal, escrow, csup, tbal, tesc, tsup, code, deployed>>
 
+(* the module's other parameter (EnableEVMHook) gates nothing that is modelled here: changing it changes no conversion *)
+ParamHookEff(b) == UNCHANGED stateVars
 ParamEff(b) == enabled' = b /\ UNCHANGED <<pairs, byErc20, byDenom, meta, cbal, escrow, csup, tbal, tesc, tsup, code, deployed>>
 
 (* the contract account loses its code (selfdestruct) *)
@@ -200,6 +202,7 @@ Next ==
   \/ \E t \in Contracts \cup Denoms : ToggleEff(t) /\ L("Toggle", ToggleOK(t), [t |-> t])
   \/ \E o \in Contracts, n \in Contracts : o # n /\ UpdateEff(o, n) /\ L("UpdateERC20", UpdateOK(o, n), [old |-> o, new |-> n])
   \/ \E b \in BOOLEAN : b # enabled /\ ParamEff(b) /\ L("Param", TRUE, [on |-> b])
+  \/ \E b \in BOOLEAN : ParamHookEff(b) /\ L("ParamHook", TRUE, [on |-> b])
   \/ \E c \in Contracts : code[c] /\ DestroyEff(c) /\ L("Destroy", TRUE, [c |-> c])
   \/ \E d \in Denoms, a \in Amts, r \in Receivers : ConvertCoinEff(d, a, r) /\ L("ConvertCoin", ConvertCoinOK(d, a, r), [d |-> d, amt |-> a, recv |-> r])
   \/ \E c \in Contracts, d \in Denoms, a \in Amts, r \in Receivers :
